@@ -1493,6 +1493,16 @@ func (vc *VC) globalSym(st *State, g *ssa.Global) Sym {
 			}
 			vc.trusted["package variable "+g.String()+" is assigned only by its initialiser (whole-program scan): treated as a constant"] = true
 		}
+		if gc.kind == "bytes" {
+			// a []byte literal that is only ever read: its length and bytes hold in every memory version
+			mem := vc.heapGet(st, vc.memKey(types.Typ[types.Uint8]))
+			facts := []string{fmt.Sprintf("(= (sl.len %s) %d)", name, len(gc.bytes)), fmt.Sprintf("(not (= (sl.base %s) 0))", name)}
+			for k, b := range gc.bytes {
+				facts = append(facts, fmt.Sprintf("(= (select (select %s (sl.base %s)) (+ (sl.off %s) %d)) #x%02x)", mem.S, name, name, k, b))
+			}
+			vc.emit("(assert " + mkAnd(facts...) + ")")
+			vc.trusted["package variable "+g.String()+" is a []byte literal whose elements are only read (whole-program scan)"] = true
+		}
 		l := &LVal{Kind: LTable, Key: name, Idx: "", T: et}
 		return Sym{L: l}
 	}
